@@ -762,16 +762,19 @@ def canon_equal(ra, rb):
 # phase driver
 # ------------------------------------------------------------------------------------------------
 TIERS = {
-    # sim_num is per TLC worker (workers // 2 of them simulate while the others run the exhaustive search)
-    'quick': dict(n_configs=4, mc_configs=4, mc_ops=1, sim_num=20, sim_ops=6, workers=4, timeout=600, max_size=24),
-    'thorough': dict(n_configs=32, mc_configs=12, mc_ops=1, sim_num=250, sim_ops=8, workers=4, timeout=1500, max_size=36),
+    # sim_num is per TLC worker (workers // 2 of them simulate while the others run the exhaustive search);
+    # mc_configs: number of catalogue configurations searched exhaustively (one operation from the catalogue state)
+    ('C02', 'quick'): dict(n_configs=4, mc_configs=4, mc_ops=1, sim_num=20, sim_ops=6, workers=4, timeout=600, max_size=24),
+    ('C04', 'quick'): dict(n_configs=4, mc_configs=2, mc_ops=1, sim_num=20, sim_ops=6, workers=4, timeout=600, max_size=24),
+    ('C02', 'thorough'): dict(n_configs=24, mc_configs=8, mc_ops=1, sim_num=150, sim_ops=8, workers=4, timeout=1500, max_size=36),
+    ('C04', 'thorough'): dict(n_configs=24, mc_configs=6, mc_ops=1, sim_num=150, sim_ops=8, workers=4, timeout=1500, max_size=36),
 }
 
 
 def run_phase(ctx, prop, tier=None, seed_offset=0):
     from . import core
     assert prop in ('C02', 'C04')
-    p = dict(TIERS[tier or ctx.tier])
+    p = dict(TIERS[(prop, tier or ctx.tier)])
     seed = ctx.seed * 7919 + 31 + seed_offset + (0 if prop == 'C02' else 4)
     gen = generate(seed=seed, **p)
     ctx.assume('spec/NpcCtor.tla: expected results computed from spec/Dense.tla + the documented charge bookkeeping',
